@@ -7,7 +7,7 @@ import ast
 
 from ..cfg import analysis, N, E
 from ..lib import prov
-from ..model import AnalysisError, call_attr, kwarg, unparse, walk_shallow, norm_stmt, names_in
+from ..model import AnalysisError, call_attr, call_name, kwarg, unparse, walk_shallow, norm_stmt, names_in
 
 ENTRIES = [
     ("utype.parser.base", "BaseParser.__call__", ("parse_data",)),
@@ -69,6 +69,18 @@ def r17b(run):
     f = resolution_worker(run)
     fa = analysis(f)
     resolvers, helper_calls = type_resolvers(run, f)
+    # roles, whatever the locals are called: the "something was resolved" flag (a local set to False, then to True) and
+    # the reference under evaluation (the first argument of evaluate_forward_ref)
+    def const_assigned(val):
+        return {n.ast.targets[0].id for n in fa.cfg.nodes if n.kind == "stmt" and isinstance(n.ast, ast.Assign)
+                and len(n.ast.targets) == 1 and isinstance(n.ast.targets[0], ast.Name)
+                and isinstance(n.ast.value, ast.Constant) and n.ast.value.value is val}
+    flags = sorted(const_assigned(True) & const_assigned(False))
+    evs = [c for n, c in fa.all_calls() if call_name(c) == "evaluate_forward_ref" and c.args]
+    if len(flags) != 1 or not evs:
+        raise AnalysisError(f"R17b: resolution worker {f.name}: flag locals {flags}, evaluate_forward_ref calls {len(evs)}")
+    FLAG, REF = flags[0], unparse(evs[0].args[0])
+    EVAL = f"{REF}.__forward_evaluated__"
     loops = [n for n in fa.cfg.nodes if n.kind == "iter" and "self.fields" in unparse(n.ast)]
     calls = [n for n, c in fa.all_calls() if call_attr(c) == "resolve_forward_refs" and unparse(c.func.value) != "self"]
     ok = bool(loops) and bool(calls) and all(any(x is c.ast or x is getattr(c, 'stmt', None) for x in walk_shallow(loops[0].stmt))
@@ -77,7 +89,7 @@ def r17b(run):
               message=f"BaseParser.{f.name} no longer calls field.resolve_forward_refs() for every field",
               necessity="fields keep the ForwardRef object as their type: the same name used in several annotations "
                         "resolves for one field only")
-    guard_ok = bool(loops) and any(unparse(a) == "resolved" and p for a, p in fa.facts.atoms_at(loops[0]))
+    guard_ok = bool(loops) and any(unparse(a) == FLAG and p for a, p in fa.facts.atoms_at(loops[0]))
     run.check("R17b", f, "the re-resolution runs whenever something was resolved", guard_ok, construct="re-resolution guard",
               message="the fields loop is not guarded by exactly `resolved`")
     add = []
@@ -89,12 +101,12 @@ def r17b(run):
             if n.kind == "stmt" and isinstance(n.ast, ast.Assign) and "self.addition_type" in unparse(n.ast.targets[0]) \
                     and "resolve_forward_type" in unparse(n.ast.value):
                 if g is f:
-                    add.append(any(unparse(a) == "resolved" and p for a, p in ga.facts.atoms_at(n)))
+                    add.append(any(unparse(a) == FLAG and p for a, p in ga.facts.atoms_at(n)))
                 else:
                     hc = [c for c in helper_calls if c.func.attr == g.name]
                     hn = [n2 for n2, c2 in fa.all_calls() if any(c2 is c for c in hc)]
-                    add.append(bool(hn) and all(any(unparse(a) == "resolved" and p for a, p in fa.facts.atoms_at(n2))
-                                                and all(unparse(a) == "resolved" for a, p in fa.facts.atoms_at(n2))
+                    add.append(bool(hn) and all(any(unparse(a) == FLAG and p for a, p in fa.facts.atoms_at(n2))
+                                                and all(unparse(a) == FLAG for a, p in fa.facts.atoms_at(n2))
                                                 for n2 in hn))
     run.check("R17b", f, "the addition type is re-resolved too (whenever something was resolved)", bool(add) and all(add),
               construct="addition type not re-resolved",
@@ -102,8 +114,8 @@ def r17b(run):
               necessity="**kwargs: 'Later' keeps converting against an unresolved reference")
     # resolved flag is set exactly when a reference evaluated
     sets = [n for n in fa.cfg.nodes if n.kind == "stmt" and isinstance(n.ast, ast.Assign)
-            and unparse(n.ast.targets[0]) == "resolved" and isinstance(n.ast.value, ast.Constant) and n.ast.value.value is True]
-    ok = bool(sets) and all(any(unparse(a) == "ref.__forward_evaluated__" and p for a, p in fa.facts.atoms_at(n)) for n in sets)
+            and unparse(n.ast.targets[0]) == FLAG and isinstance(n.ast.value, ast.Constant) and n.ast.value.value is True]
+    ok = bool(sets) and all(any(unparse(a) == EVAL and p for a, p in fa.facts.atoms_at(n)) for n in sets)
     run.check("R17b", f, "`resolved` is set for every successfully evaluated reference", ok, construct="resolved flag",
               message="`resolved = True` is not set under `ref.__forward_evaluated__`")
     # a reference leaves the pending table only once evaluated: a guarded pop, or a pop over a list that the worker
@@ -116,7 +128,7 @@ def r17b(run):
             if call_attr(c) in ("pop", "popitem", "clear") and isinstance(c.func, ast.Attribute) \
                     and unparse(c.func.value) == "self.forward_refs":
                 pops_total += 1
-                ok = any(unparse(a) == "ref.__forward_evaluated__" and p for a, p in ma.facts.atoms_at(n))
+                ok = any(unparse(a) == EVAL and p for a, p in ma.facts.atoms_at(n))
                 if not ok:
                     loops_ = [b for b in ma.cfg.dominators()[n] if b.kind == "branch" and b.is_for and b.polarity]
                     if loops_ and isinstance(loops_[-1].stmt.iter, ast.Name) and c.args \
@@ -130,7 +142,7 @@ def r17b(run):
                             pname = f.params[idx + 1] if len(f.params) > idx + 1 else None
                             apps = [(n3, c3) for n3, c3 in fa.all_calls() if call_attr(c3) == "append"
                                     and unparse(c3.func.value) == pname]
-                            ok = bool(apps) and all(any(unparse(a) == "ref.__forward_evaluated__" and p
+                            ok = bool(apps) and all(any(unparse(a) == EVAL and p
                                                         for a, p in fa.facts.atoms_at(n3)) for n3, c3 in apps)
                 run.check("R17b", m, "a reference leaves the pending table only once evaluated", ok, construct="pending table",
                           message=f"`{unparse(c)}` in {m.name} is not tied to the evaluated flag", node=c)
